@@ -109,6 +109,12 @@ pub fn peer_p1(role: Role, scheme: Option<Scheme>, offset: usize, high: bool, sp
     match scheme {
         Some(s) => {
             sha::prng_fill(fill ^ 0xABCD, &mut p1);
+            // a peer may fill the non-digest bytes with zeros (or a constant) instead of random data
+            match (fill >> 24) % 6 {
+                0 => p1.iter_mut().for_each(|b| *b = 0),
+                1 => p1.iter_mut().for_each(|b| *b = 0x5A),
+                _ => {}
+            }
             // time and version fields vary: zero time, zero version (original-spec look-alike),
             // Flash-player style versions with a zero or non-zero leading byte, or random
             match (fill >> 20) % 5 {
@@ -188,6 +194,7 @@ fn eval_answer(c: &AnswerCase) -> Verdict {
                 Scheme::At772 => "peer-digest-pointer-at-772",
             });
             obs.class_if(p1[4] == 0, "peer-version-field-starts-with-zero");
+            obs.class_if(p1[1400..1500].iter().all(|b| *b == 0) || p1[100..200].iter().all(|b| *b == 0), "peer-packet-zero-filled");
             obs.class_if(p1[4..8] == [0, 0, 0, 0], "peer-version-field-all-zero");
         }
         None => {
